@@ -288,7 +288,8 @@ def gen_steps(r, cfg, profile):
         b = r.choice(boards)
         if b["id"] in placed: lose(b)
         b2 = r.choice(boards)
-        if b2["id"] in placed and r.chance(1, 2): lose(b2); connect(b2)
+        if b2["id"] in placed and r.chance(1, 3): lose(b2); connect(b2)
+        elif b2["id"] in placed and r.chance(1, 2): connect(b2)          # re-login at another address without a loss notice in between
         elif b2["id"] not in placed and r.chance(1, 2): connect(b2)
         tail = all_accessory_cmds()
         steps += [r.choice(tail) for _ in range(10)] + train_cmds(10) + misc_cmds(5)
@@ -576,6 +577,17 @@ def judge_case(ck, cfg, steps, res, tag, stats, corr):
             if m is None or strip_rest(m["state"]) != strip_rest(o["state"]):
                 corr["dis"] += 1
                 if len(ck.broken) < 3: ck.broken.append({"kind": "correspondence", "name": "corr_highlevel", "case": tag, "step": i, "command": list(s), "impl": o["raw"], "model": m["raw"] if m else None})
+            # ---- oracle on the notice itself: the board is connected at the announced address / disconnected
+            if s[0] in ("connect", "lost"):
+                bid = next((b["id"] for b in cfg["boards"] if hexs(b["uid"]) == s[-1]), None)
+                want = [1, list(final_addr(s[1:5]))] if s[0] == "connect" else [0, None]
+                got = o["state"]["B"].get(bid)
+                if bid is not None and (got is None or got[0] != want[0] or (want[0] == 1 and got[1] != want[1])):
+                    stats["viol"]["unexpected." + s[0]] = stats["viol"].get("unexpected." + s[0], 0) + 1
+                    if stats["viol"]["unexpected." + s[0]] == 1:
+                        ck.violation("unexpected." + s[0], dict(replay_base, steps=[list(x) for x in steps[:i + 1]], step=i, command=list(s), state_before=strip_rest(prev),
+                                               observed={"board": bid, "connected_and_address": got}, expected={"connected_and_address": want},
+                                               reason="after the notice the board is not tracked as announced; later commands go to the tracked address"))
             prev = o["state"]
             continue
         o = impl.get(str(i)); m = model.get(str(i))
